@@ -872,6 +872,11 @@ class Fetcher:
 
     def _download_image(self, url, title):
         path = self.fsout.get_imagepath(title)
+        key = ("download-to", path)
+        if key in self.scheduled:
+            # another url / title with the same file name: two downloads would share one temp file
+            return
+        self.scheduled.add(key)
         temp_path = (path + "\xb7").encode("utf-8")
         greenlet_task = self.image_download_pool.spawn(download_to_file, url, path, temp_path)
         self.pool.add(greenlet_task)
